@@ -290,7 +290,7 @@ func (ch *channel) addChunkData(rsd recSegData) {
 
 func (ch *channel) receivedSegData(rsd recSegData) {
 	log := slog.Default().With("chName", ch.name, "trName", rsd.name, "seqNr", rsd.seqNr)
-	if _, ok := ch.trDatas[rsd.name]; !ok {
+	if _, ok := ch.getTrData(rsd.name); !ok {
 		log.Error("received segData for unknown track")
 		return
 	}
@@ -318,14 +318,14 @@ func (ch *channel) receivedSegData(rsd recSegData) {
 			}
 		}
 
-		if ch.masterSegDuration == 0 && name == ch.masterTrName {
+		if ch.masterSegDuration == 0 && ch.isMasterTrack(name) {
 			// Evaluate at least two durations to see if the are the same
 			sdb := ch.segTimesGen.segDataBuffers[name]
 			if sdb.nrItems() < 2 {
 				return
 			}
 			for i := uint32(0); i < sdb.nrItems(); i++ {
-				if name == ch.masterTrName && ch.masterSegDuration == 0 {
+				if ch.isMasterTrack(name) && ch.masterSegDuration == 0 {
 					// Evaluate the first two durations to see if they are consecutive with same duration. If not, drop the oldest one.
 					if sdb.items[1].seqNr != sdb.items[0].seqNr+1 || sdb.items[1].dur != sdb.items[0].dur {
 						ch.segTimesGen.dropSeqNr(sdb.items[0].seqNr)
@@ -393,6 +393,19 @@ func (ch *channel) addTrData(rd *trData) {
 	ch.trIDs = append(ch.trIDs, rd.name)
 	sort.Strings(ch.trIDs)
 	ch.mu.Unlock()
+}
+
+func (ch *channel) getTrData(name string) (*trData, bool) {
+	ch.mu.RLock()
+	rd, ok := ch.trDatas[name]
+	ch.mu.RUnlock()
+	return rd, ok
+}
+
+func (ch *channel) isMasterTrack(name string) bool {
+	ch.mu.RLock()
+	defer ch.mu.RUnlock()
+	return name == ch.masterTrName
 }
 
 func extractVideoData(stsd *mp4.StsdBox, rep *m.RepresentationType) error {
@@ -482,6 +495,8 @@ func (ch *channel) updateAndWriteMPD(log *slog.Logger) error {
 // deriveAndSetBitrates estimates bitrates for variants without bitrate information.
 // Only count unshifted or shifted segments, not both.
 func (ch *channel) deriveAndSetBitrates() {
+	ch.mu.Lock()
+	defer ch.mu.Unlock()
 	for name, trd := range ch.trDatas {
 		if trd.init.Moov.Trak.Mdia.Minf.Stbl.Stsd.GetBtrt() == nil {
 			// Estimate bitrate from the segments available
@@ -520,6 +535,8 @@ func (ch *channel) deriveAndSetBitrates() {
 }
 
 func (ch *channel) deriveAndSetFrameRates(log *slog.Logger) {
+	ch.mu.Lock()
+	defer ch.mu.Unlock()
 	for name, trd := range ch.trDatas {
 		sdb, ok := ch.segTimesGen.segDataBuffers[name]
 		if trd.contentType != "video" {
